@@ -326,7 +326,11 @@ pub fn c17_parts(quick: bool) -> (Vec<EwSpec>, Vec<Scenario>) {
         script.push(at(16 + 60, Act::CSend(0, 0, SendMode::Reliable, 41)));
         let mut env = EwEnv::basic(if quick { 5 } else { 8 }, 16 + 90);
         env.fates = DF_BASIC; env.fate_types = &[0, 1, 2, 4, 5]; env.deltas = &[100, 2000]; env.fair_delta = 500; env.stop_when_done = false;
-        scs.push(sc("C17.reconnect-within-linger", &cfg, script, env, if quick { 1 } else { 2 }, EO_C17 | EO_C08 | EO_C07));
+        scs.push(sc("C17.reconnect-within-linger", &cfg, script.clone(), env.clone(), if quick { 1 } else { 2 }, EO_C17 | EO_C08 | EO_C07));
+        // the same with the application calling Server::drop() on the lingering (closed) entry before the reconnect, and on a
+        // closing entry (server-side disconnect towards a vanished client)
+        let mut s2 = script.clone(); s2.push(at(6, Act::SDrop(0)));
+        scs.push(sc("C17.drop-during-linger-then-reconnect", &cfg, s2, env.clone(), if quick { 1 } else { 2 }, EO_C17 | EO_C08));
     }
     (scs, custom)
 }
@@ -414,9 +418,35 @@ pub fn c18(quick: bool) -> PropRun {
             scs.push(Scenario { name, d: 0, run: Box::new(run) });
         }
     }
+    // one or three valid connection requests from an address that never answers, against servers stepping slowly (the resend timers are
+    // then handled late) and servers configured with long active time-outs, watched for seven minutes
+    {
+        let name = "C18.unanswered-syn|timeouts20s.3min.1h|cadence0.5s.5s.30s|syns1.3".to_string();
+        let run = move |ch: &mut Chooser| -> ExecResult {
+            let timeout = [20_000u64, 180_000, 3_600_000][ch.free(3)];
+            let cad = [500u64, 5_000, 30_000][ch.free(3)];
+            let nsyn = [1usize, 3][ch.free(2)];
+            let alpha = raw_alphabet();
+            let syn = alpha.iter().find(|a| a.0 == "valid SYN").map(|a| a.1.clone()).unwrap();
+            let mut cfg = EwCfg::new(1); cfg.server.active_timeout_ms = timeout;
+            let rounds = (420_000 / cad) as usize + 4;
+            let mut script: Vec<EwOp> = Vec::new();
+            for k in 0..nsyn { script.push(at(1 + k * ((30_000 / cad) as usize).max(1), Act::Raw(0, syn.clone()))); }
+            let mut env = EwEnv::basic(0, rounds);
+            env.fates = DF_NONE; env.deltas = leak_deltas(cad, &[]); env.fair_delta = cad; env.stop_when_done = false;
+            let mut c0 = Chooser::new(vec![], vec![]);
+            let tr = run_ew(&cfg, &script, &env, &mut c0);
+            if crate::lwprops::verbose() { print_ew(&cfg, &tr); }
+            let violations = oracle_c18(&cfg, &tr, 2);
+            let replies = tr.wire.iter().filter(|d| d.src == saddr() && d.dst.port() >= 45000).count() as u64;
+            ExecResult { violations, panic: None, outcome: ew_outcome(&tr) ^ replies << 20 ^ timeout ^ cad << 32, states: ew_states(&tr), transitions: tr.obs.len() as u64, witnesses: (replies > 0) as u64 | ((replies > 3) as u64) << 1,
+                         sample: if cad == 5000 && nsyn == 1 { Some(format!("server time-out {} ms, steps every {} ms: {} datagrams sent to the silent address in 420 s", timeout, cad, replies)) } else { None } }
+        };
+        scs.push(Scenario { name, d: 0, run: Box::new(run) });
+    }
     PropRun { level: "fault_enumeration", scenarios: scs, units: vec![], replay_case: None, summary: Summary {
         rule: "every sequence of up to `len` raw datagrams from two spoofable addresses with waits of 0.5/2/21/23 s between them is sent to a real Server (once with room, once full and serving an honest client); a byte ledger per address is evaluated over all datagrams of the execution; distinct = distinct (sequence, outcome)".into(),
-        bounds: json!({"plans(len,reduced_alphabet)": plans, "alphabet": raw_alphabet_rep().iter().map(|x| x.0.clone()).collect::<Vec<_>>(), "reduced_alphabet": ["valid SYN", "SYN other nonce", "SYN 1471 bytes", "SYN wrong version", "SYN config refused (packet too big)", "ACK wrong nonce", "garbage", "ACK wrong nonce x200", "valid SYN x200", "disconnect x200"], "bursts": "12 letters also as bursts of 200 copies in one round", "waits_rounds_of_500ms": [1, 4, 42, 46], "server": ["default limits", "full (1 connection, taken by an honest client)"]}),
+        bounds: json!({"plans(len,reduced_alphabet)": plans, "alphabet": raw_alphabet_rep().iter().map(|x| x.0.clone()).collect::<Vec<_>>(), "reduced_alphabet": ["valid SYN", "SYN other nonce", "SYN 1471 bytes", "SYN wrong version", "SYN config refused (packet too big)", "ACK wrong nonce", "garbage", "ACK wrong nonce x200", "valid SYN x200", "disconnect x200"], "bursts": "12 letters also as bursts of 200 copies in one round", "waits_rounds_of_500ms": [1, 4, 42, 46], "server": ["default limits", "full (1 connection, taken by an honest client)"], "unanswered_syn": "server active time-out 20 s / 3 min / 1 h x step cadence 0.5 / 5 / 30 s x 1 or 3 requests, 420 s"}),
         assumptions: A_EW.iter().map(|s| s.to_string()).collect(), witness_names: vec!["the server replied to an unverified address", "SYN-ACK retransmissions to an unverified address"], extra: json!({}), exhaustive: true } }
 }
 
@@ -477,6 +507,18 @@ pub fn c10_parts(quick: bool) -> (Vec<EwSpec>, Vec<Scenario>) {
                     env.dev_start = 0; env.dev_rounds = if quick { 4 } else { 8 }; env.deltas = leak_deltas(cad, &[0, 1, 1999, 2000, 2001, 3000, 7000, 25_000]);
                     scs.push(sc("C10.handshake", &cfg, vec![at(0, Act::Connect(0)), after_c(0, 3, Act::SDrop(0))], env, 1, EO_C10));
                 }
+            }
+        }
+        // timers of two clients in the server's queue: client 1 connects and disconnects at once (its closed entry lingers 20 s), client 0
+        // vanishes and the server disconnects it - ten requests 2 s apart, then Error(Timeout), whatever else is queued
+        {
+            let mut cfg2 = EwCfg::new(2); cfg2.server = mk(cfg2.server.clone()); for c in cfg2.clients.iter_mut() { *c = mk(c.clone()); }
+            for (sname, act) in [("server-disconnect-now", Act::SDisconnectNow(0)), ("server-disconnect", Act::SDisconnect(0))] {
+                let script = vec![at(0, Act::Connect(1)), after_c(1, 2, Act::CDisconnectNow(1)), at(0, Act::Connect(0)), after_s(0, 5, Act::Forget(0)), after_s(0, 6, act)];
+                let mut env = EwEnv::basic(0, 320);
+                env.fair_delta = 100; env.fates = DF_NONE; env.stop_when_done = false; env.deltas = leak_deltas(100, &[0, 1999, 2001]);
+                env.dev_start = 8; env.dev_rounds = if quick { 3 } else { 6 };
+                scs.push(sc(&format!("C10.two-clients.{}-vanished-peer", sname), &cfg2, script, env, 1, EO_C10 | EO_C09));
             }
         }
         // disconnect retry budget: client disconnects into a blackout
